@@ -75,3 +75,25 @@ Example ex_stale_token :
   | None => false
   end = true.
 Proof. vm_compute. reflexivity. Qed.
+
+(** * The trace monitor on concrete traces
+
+    It accepts the event trace induced by the execution above (panicking
+    subset: call (1,1)), ... *)
+Example ex_monitor_accepts :
+  PoolMon.check [2; 1] [(1, 1)] (PoolMon.trace ref_cfg (init [2; 1]) ex_labels) = []
+  /\ PoolMon.violations [(1, 1)] (PoolMon.trace ref_cfg (init [2; 1]) (firstn 9 ex_labels)) = [].
+Proof. vm_compute. split; reflexivity. Qed.
+
+(** ... and it is not vacuous: on the trace of a pool that drops the caller's
+    caught payload before the wait loop (seeded change C06-b: the caller leaves
+    [broadcast] by an escaping panic while worker 1 has not even called the task;
+    harness trace [B.1 N.1 S.1 R.1.1.1 Q.1 C.0.0.1 Z.-,- B.1 N.1 C.1.1.x]) it
+    reports once-per-index, results, dead access, incomplete and
+    "left broadcast with non-zero counter". *)
+Example ex_monitor_rejects :
+  PoolMon.check [1; 1] [(1, 0)]
+    [PoolMon.VBcast 1; PoolMon.VNew 1; PoolMon.VSpawn 1; PoolMon.VRecv 1 1 true; PoolMon.VSent 1;
+     PoolMon.VCall 0 0 true; PoolMon.VRet [None; None]; PoolMon.VBcast 1; PoolMon.VNew 1; PoolMon.VDead 1]
+  = [PoolMon.F_incomplete; PoolMon.F_dead; PoolMon.F_wake; PoolMon.F_results; PoolMon.F_once].
+Proof. vm_compute. reflexivity. Qed.
